@@ -774,6 +774,15 @@ pub(crate) fn check_if_response_is_matched(
         (0, total_count - reorg_count)
     };
 
+    // Only a fork at the same height has no blocks between the start block and the last block.
+    if last_n_count == 0 && last_header.header().number() > start_number {
+        let errmsg = format!(
+            "there should be last n headers before the last block#{}",
+            last_header.header().number()
+        );
+        return Err(StatusCode::MalformedProtocolMessage.with_context(errmsg));
+    }
+
     if sampled_count == 0 {
         if last_n_count > 0 {
             // If no sampled headers, the last_n_blocks should be all new blocks.
@@ -803,6 +812,37 @@ pub(crate) fn check_if_response_is_matched(
             }
         }
     } else {
+        // The last n headers should end right before the last header.
+        let last_last_n_header_number = headers[headers.len() - 1].header().number();
+        let last_number = last_header.header().number();
+        if last_last_n_header_number.checked_add(1) != Some(last_number) {
+            let errmsg = format!(
+                "the last n headers end at block#{} but the last block is block#{}",
+                last_last_n_header_number, last_number
+            );
+            return Err(StatusCode::MalformedProtocolMessage.with_context(errmsg));
+        }
+
+        // When there are more than n last headers, they should start with the first block
+        // whose total difficulty reaches the difficulty boundary.
+        if last_n_count > last_n_blocks {
+            let first_last_n_header = &headers[reorg_count + sampled_count];
+            let difficulty_boundary: U256 = prev_request.difficulty_boundary().unpack();
+            let total_difficulty_before_last_n = first_last_n_header
+                .total_difficulty()
+                .saturating_sub(&first_last_n_header.header().difficulty());
+            if first_last_n_header.header().number() > start_number
+                && total_difficulty_before_last_n >= difficulty_boundary
+            {
+                let errmsg = format!(
+                    "the last n headers start at block#{} but the difficulty boundary \
+                    is reached before it",
+                    first_last_n_header.header().number()
+                );
+                return Err(StatusCode::MalformedProtocolMessage.with_context(errmsg));
+            }
+        }
+
         // Check if the sampled headers are subject to requested difficulties distribution.
         let first_last_n_total_difficulty: U256 =
             headers[reorg_count + sampled_count].total_difficulty();
